@@ -168,10 +168,22 @@ class LsSpec(netx.Spec):
                     n0, n1 = gen.ref_cost(spec, a0, False), gen.ref_cost(spec, a1, False)
                     # root cause test: would the step be fine if own value costs did not exist?
                     feats.append("varcosts" if gen.better(n0, n1, mode) and not gen.close(n0, n1) else "own-cost-ignored")
+                go = world.mon.get("go", {})
                 if len(changed) > 1:
-                    go = world.mon.get("go", {})
                     pair = len(changed) == 2 and (changed[0], changed[1], c) in go and (changed[1], changed[0], c) in go
                     feats.append("coordinated-pair-move" if pair else "multi-move")
+                if "own-cost-ignored" in feats:
+                    feats = ["own-cost-ignored"]  # root cause established: secondary features would only multiply the keys
+                elif self.algo == "mgm2" and mode == "min":
+                    # root cause test (signature only): a mover committed with a partner (GO both ways) while the constraints they
+                    # share currently cost something: Mgm2Computation._find_best_offer subtracts the new cost of the receiver's
+                    # OTHER constraints from its FULL current cost, so that amount is counted as gain once too often
+                    for x in changed:
+                        for y in self.nb[x]:
+                            if (x, y, c) in go and (y, x, c) in go:
+                                shared = gen.ref_cost({"vars": spec["vars"], "cons": [k for k in spec["cons"] if x in k["scope"] and y in k["scope"]]}, a0, False)
+                                if shared:
+                                    feats = ["shared-constraint-cost-counted-twice"]
                 report(
                     f"C03|{self.algo}|{mode}|cost-worsened|" + "+".join(feats or ["plain"]),
                     f"{self.algo} {self.params} mode={mode}: global cost went from {c0} (cycle {c}: {a0}) to {c1} (cycle {c + 1}: {a1})",
